@@ -500,3 +500,94 @@ func applyDupAliases(p *Prog, f *File) {
 		}
 	}
 }
+
+// RespellValuePointer switches value <-> pointer where the property families
+// treat both alike: parameters of functions nobody calls and of package-level
+// closures, literals `_ = T{}` <-> `_ = &T{}`, named struct fields T <-> *T.
+// (Not `var x T` <-> `var x *T`, which C02 defines as different.)
+func RespellValuePointer(t *rapid.T, p *Prog) (n int, sites map[int]bool) {
+	sites = map[int]bool{}
+	flip := func(label string) bool { return rapid.IntRange(0, 9).Draw(t, label) < 3 }
+	flipVar := func(v *Var) {
+		if v == nil || v.Ref == nil || v.Ref.Via != nil || v.CallOf != nil || v.Shadow {
+			return
+		}
+		if v.Ref.Type.Kind != KStruct {
+			return // nil is not a value of a named int; keep call sites valid
+		}
+		if flip("flipParam") {
+			v.Ref.Ptr = !v.Ref.Ptr
+			n++
+			sites[v.ID] = true
+		}
+	}
+	var doStmts func(ss []Stmt)
+	doStmts = func(ss []Stmt) {
+		for _, s := range ss {
+			switch s := s.(type) {
+			case *Site:
+				if s.Form == "" && (s.Kind == "lit" || s.Kind == "litptr") && flip("flipLit") {
+					if s.Kind == "lit" {
+						s.Kind = "litptr"
+					} else {
+						s.Kind = "lit"
+					}
+					n++
+					sites[s.ID] = true
+				}
+			case *OneLiner:
+				for _, x := range s.Sites {
+					doStmts([]Stmt{x})
+				}
+			case *Wrap:
+				doStmts(s.Body)
+			}
+		}
+	}
+	for _, pkg := range p.Pkgs {
+		for _, f := range pkg.Files {
+			for _, d := range f.Decls {
+				switch d := d.(type) {
+				case *TypeDecl:
+					for _, fl := range d.Fields {
+						if fl.Ref != nil && !fl.Embedded && fl.Ref.Via == nil && flip("flipField") {
+							// a struct cannot contain itself by value
+							if fl.Ref.Ptr && fl.Ref.Type == d {
+								continue
+							}
+							fl.Ref.Ptr = !fl.Ref.Ptr
+							fl.Ptr = fl.Ref.Ptr
+							n++
+							sites[fl.ID] = true
+						}
+					}
+				case *FuncDecl:
+					if !d.called && !d.IsListedConstructor(p) {
+						for _, pv := range d.Params {
+							flipVar(pv)
+						}
+					}
+					doStmts(d.Body)
+				case *VarDecl:
+					if d.Closure != nil {
+						for _, pv := range d.Closure.Params {
+							flipVar(pv)
+						}
+						doStmts(d.Closure.Body)
+					}
+				}
+			}
+		}
+	}
+	return
+}
+
+// IsListedConstructor: some type of the function's package lists it in @constructor.
+func (f *FuncDecl) IsListedConstructor(p *Prog) bool {
+	for _, t := range p.AllTypes() {
+		if t.Pkg == f.Pkg && t.IsCtor(f.Name) {
+			return true
+		}
+	}
+	return false
+}
